@@ -521,6 +521,19 @@ func runC09(r *core.Run) {
 			r.Count("redefinition_histories", 1)
 		}
 	}
+	// recorded finding K07: f(g()) with a multi-valued g forwards the first result only
+	{
+		m := core.NewMachine(core.VMOpts{Optimize: true, Obs: core.NewObs(core.SmallBudget, false, nil)})
+		o := m.Eval(nil, "func divmod(a int, b int) (int, int) { return a / b, a % b }; func show(q int, r int) int { return q*10 + r }; println(divmod(17, 5)); x := show(divmod(17, 5)); x")
+		r.Eval(1)
+		if !(o.Err == "" && o.Out == "3 2\n" && len(o.Rets) == 1 && o.Rets[0] == "32") {
+			if r.Findings().Open("K07") {
+				r.KnownFinding("K07")
+			} else {
+				r.Violate(core.Violation{Check: "c09-k07", What: "f(g()) with a multi-valued g does not forward all results", Case: "println(divmod(17, 5)); show(divmod(17, 5))", Expected: "3 2 / 32", Observed: o})
+			}
+		}
+	}
 	for i, ill := range c09Ills {
 		for _, opt := range []bool{true, false} {
 			r.Eval(1)
